@@ -39,3 +39,8 @@ func TestC09Owned(t *testing.T) {
 		return c
 	}, checkC11)
 }
+
+func TestC16Stall(t *testing.T) {
+	concT = t
+	RunProp(t, "C16", "stall-fake-clock", genHSStall, checkC16Stall)
+}
